@@ -14,7 +14,8 @@
    configured limits, CIDs well-formed with digests <= 32 MiB (go-cid's stream parser cap),
    and -- unless the reader is told to trust the CAR -- blocks hashing to their CIDs. *)
 From GoCar Require Import Bytes Varint Cid Header Frame V2Header Scan BlockReaderPos.
-From GoCarProofs Require Import CidFacts ScanFacts BlockReaderPosFacts BlockReaderPosC14.
+From GoCar Require Import Index.
+From GoCarProofs Require Import CidFacts ScanFacts BlockReaderPosFacts BlockReaderPosC14 BlockReaderPosMore.
 
 (* CARv1, every option set, both source kinds, every choice string: the walk visits exactly
    the scan's blocks in order (as many as there are choices), ends with io.EOF iff the choices
@@ -100,3 +101,73 @@ Theorem C14_eof_only_at_a_clean_end :
        vis st = [] \/ (o_zeof o = true /\ exists rest n, read_uv (vis st) = VOk 0 rest n)).
 Proof. exact c14_eof_clean. Qed.
 Print Assumptions C14_eof_only_at_a_clean_end.
+
+(* ---- round 3 ------------------------------------------------------------------------------ *)
+
+(* The stream-parser hypothesis of the two theorems above is implied by the section limit
+   whenever MaxAllowedSectionSize <= 32 MiB (default: 8 MiB): for default options the theorems
+   need no assumption about digest lengths. *)
+Theorem C14_stream_parser_hypothesis_holds_within_32MiB :
+  forall maxs bs,
+    maxs <= max_digest_alloc -> Forall (block_ok maxs) bs ->
+    Forall (fun b => cid_stream_ok (fst b)) bs.
+Proof. exact stream_ok_within_cap. Qed.
+Print Assumptions C14_stream_parser_hypothesis_holds_within_32MiB.
+
+(* For ALL reader states (any bytes, any options): a successful Next / SkipNext advances
+   br.offset by exactly the distance the source position moved (never backwards), and the
+   metadata SkipNext returns is br.offset before the call (SourceOffset) and br.offset - v1offset
+   (Offset).  So br.offset - position is an invariant of every walk. *)
+Theorem C14_offset_tracks_source_position :
+  forall hok o st,
+    (forall b st', brp_next hok o st = Ok (b, st') ->
+       p_off st' + p_pos st = p_off st + p_pos st' /\ p_pos st <= p_pos st') /\
+    (forall m st', brp_skip o st = Ok (m, st') ->
+       p_off st' + p_pos st = p_off st + p_pos st' /\ p_pos st <= p_pos st' /\
+       m_soff m = p_off st /\ m_off m = p_off st - p_v1off st).
+Proof. exact c14_offset_tracks. Qed.
+Print Assumptions C14_offset_tracks_source_position.
+
+(* uint64 arithmetic on br.offset is not modelled; it cannot matter: every offset the theorems
+   above mention (SourceOffset, and the position = br.offset after each call) lies inside the
+   file, so for a file shorter than 2^64 bytes reducing it modulo 2^64 changes nothing. *)
+Theorem C14_offsets_lie_inside_the_file_and_cannot_wrap :
+  forall roots bs i,
+    (blen (ld (enc_header (Some roots) 1) ++ enc_sections (firstn i bs)) <= blen (enc_payload roots bs)) /\
+    (forall hi lo ioff pad trailer,
+       51 + blen pad + blen (ld (enc_header (Some roots) 1) ++ enc_sections (firstn i bs))
+       <= blen (v2_file hi lo ioff pad (enc_payload roots bs) trailer)) /\
+    (forall file off, off <= blen file -> blen file < two64 -> wrap64 off = off).
+Proof. exact c14_offsets_inside. Qed.
+Print Assumptions C14_offsets_lie_inside_the_file_and_cannot_wrap.
+
+(* CARv2 with an embedded index (index padding, the index as index.WriteTo writes it, anything
+   after it, IndexOffset pointing at it), section limit within 32 MiB so no digest hypothesis,
+   either source kind, every choice string: the metadata is exact and nothing at or beyond the
+   end of the payload -- in particular no byte of the index -- is ever consumed. *)
+Theorem C14_positions_exact_carv2_with_embedded_index :
+  forall hok hdrdec o seek roots bs w hi lo pad ipad i junk,
+    hdrdec (enc_header (Some roots) 1) = Some (roots, 1) ->
+    blen (enc_header (Some roots) 1) <= o_maxh o -> blen (enc_header (Some roots) 1) < two63 ->
+    Forall (block_ok (o_maxs o)) bs -> o_maxs o <= max_digest_alloc ->
+    (o_trusted o = false -> Forall (hash_good hok) bs) ->
+    hdrdec pragma_body = Some ([], 2) -> 10 <= o_maxh o ->
+    hi < two64 -> lo < two64 ->
+    51 + blen pad + blen (enc_payload roots bs) + blen ipad < two63 ->
+    let file := v2_indexed hi lo pad (enc_payload roots bs) ipad i junk in
+    let base := 51 + blen pad in
+    let start k := blen (ld (enc_header (Some roots) 1) ++ enc_sections (firstn k bs)) in
+    let index_offset := base + blen (enc_payload roots bs) + blen ipad in
+    exists st0 steps e fin,
+      brp_run hok hdrdec o seek file w = Ok (2, roots, st0, (steps, (e, fin))) /\
+      map step_cid steps = firstn (length w) (map fst bs) /\
+      e = (if (length bs <? length w)%nat then Some EEof else None) /\
+      (forall k s, nth_error steps k = Some s ->
+        exists c d ch hw, nth_error bs k = Some (c, d) /\ nth_error w k = Some ch /\
+          s = if ch : bool then StN c d (base + start (S k)) hw
+              else StS (mkmeta c (start k) (base + start k) (blen d)) (base + start (S k)) hw) /\
+      (forall s, In s steps -> step_hw s <= index_offset - blen ipad) /\
+      p_hw fin <= index_offset - blen ipad /\
+      drop index_offset file = idx_write i ++ junk.
+Proof. exact c14_v2_indexed. Qed.
+Print Assumptions C14_positions_exact_carv2_with_embedded_index.
